@@ -479,9 +479,38 @@ func runC13RefTCP(c *core.Ctx) {
 		return cl
 	}
 	uname := "ufa:peer"
+	// In half of the runs a second TCP connection of another remote is attached to the same ufrag first, and
+	// arming a write deadline fails on it (socket fault): what a closing handle pushed down to the streams its
+	// siblings keep using must still be taken back from the healthy ones.
+	auxWanted := t.Bias(1, 2, "aux-stream-wdl-fault")
+	c.Knob("auxStreamWithDeadlineFault", auxWanted)
+	firstGet := true
 	// clientGot reads what the mux wrote to the client so far (non-blocking view of its receive queue)
 	r := &c13Refcount{c: c, kind: "tcp",
-		get: func() (net.PacketConn, error) { return mux.GetConnByUfrag("ufa", false, lip) },
+		get: func() (net.PacketConn, error) {
+			pc, err := mux.GetConnByUfrag("ufa", false, lip)
+			if err != nil || !firstGet || !auxWanted {
+				firstGet = false
+				return pc, err
+			}
+			firstGet = false
+			aux := dial()
+			if aux == nil {
+				return pc, err
+			}
+			seq++
+			first := tsBinding(stun.MethodBinding, stun.ClassRequest, seq, &uname, 0)
+			_, _ = aux.Write(tsEnc(first))
+			synctest.Wait()
+			buf := make([]byte, 2048)
+			if n, _, rerr := pc.ReadFrom(buf); rerr != nil || !bytes.Equal(buf[:n], first) {
+				c.Failf("harness/c13-aux", "the first frame of the auxiliary stream was not delivered: n=%d err=%v", n, rerr)
+				return pc, err
+			}
+			aux.Peer().FailWriteDeadlines(errors.New("injected: SetWriteDeadline fails on this stream"))
+			c.Fault("stream-set-write-deadline-fails")
+			return pc, err
+		},
 		inbound: func(tag string) []byte {
 			seq++
 			msg := tsBinding(stun.MethodBinding, stun.ClassRequest, seq, &uname, 0)
